@@ -145,14 +145,37 @@ func (p *Packer) Pack(src string, w io.Writer) (*Meta, error) {
 	// Track the metadata details as we go.
 	meta := &Meta{}
 
+	// A trailing separator would make Lstat look through a symlink, and we
+	// would end up walking the link instead of the directory it names.
+	if src != "" {
+		src = filepath.Clean(src)
+	}
+
 	info, err := os.Lstat(src)
 	if err != nil {
 		return nil, err
 	}
 
-	// Check if the root (src) is a symlink
-	if info.Mode()&os.ModeSymlink != 0 {
-		src, err = os.Readlink(src)
+	// Check if the root (src) is a symlink, possibly the first of a chain.
+	for hops := 0; info.Mode()&os.ModeSymlink != 0; hops++ {
+		if hops > maxDereferenceDepth {
+			return nil, fmt.Errorf("too many levels of symbolic links resolving %q", src)
+		}
+		target, err := os.Readlink(src)
+		if err != nil {
+			return nil, err
+		}
+		if !filepath.IsAbs(target) {
+			// A relative target is relative to the directory that holds the
+			// link. Earlier versions read it relative to the working
+			// directory; that reading is kept only for links which do not
+			// resolve the proper way.
+			if proper := filepath.Join(filepath.Dir(src), target); pathExists(proper) {
+				target = proper
+			}
+		}
+		src = target
+		info, err = os.Lstat(src)
 		if err != nil {
 			return nil, err
 		}
@@ -798,6 +821,11 @@ func climbsAboveRoot(absRoot, absPath, target string) bool {
 		}
 	}
 	return false
+}
+
+func pathExists(path string) bool {
+	_, err := os.Lstat(path)
+	return err == nil
 }
 
 // checkFileMode is used to examine an os.FileMode and determine if it should
